@@ -14,6 +14,9 @@ type CliCase struct {
 	Prior   string `json:"prior"`
 	ToFile  bool   `json:"toFile"`
 	Kind    string `json:"kind"`
+	// an operational failure the command line must report (non-zero exit, nothing on stdout): "no-profile-file", "no-data-file",
+	// "out-dir-missing" (the output path lies in a directory that does not exist), "no-args"
+	Fault   string `json:"fault,omitempty"`
 	Profile string `json:"profile"`
 	Data    string `json:"data"`
 }
@@ -64,6 +67,17 @@ func genCli(g *G, n int, out io.Writer) {
 	}
 	emit("validate", "big", true, "violations", okProfile, okData)
 	emit("compile", "", false, "conforming", okProfile, "[]")
+	for _, sub := range []string{"validate", "generate", "normalize", "compile"} {
+		for _, fault := range []string{"no-profile-file", "no-data-file", "no-args"} {
+			if (sub == "generate" || sub == "compile") && fault == "no-data-file" || sub == "normalize" && fault == "no-profile-file" {
+				continue
+			}
+			enc.Encode(CliCase{Op: "cli", Id: id, Sub: sub, Kind: "fault:" + fault, Fault: fault, Profile: okProfile, Data: okData})
+			id++
+		}
+	}
+	enc.Encode(CliCase{Op: "cli", Id: id, Sub: "validate", ToFile: true, Prior: "absent", Kind: "fault:out-dir-missing", Fault: "out-dir-missing", Profile: okProfile, Data: okData})
+	id++
 	for _, in := range bad {
 		emit("validate", "", false, in.kind, in.p, in.d)
 		emit("validate", "longer", true, in.kind, in.p, in.d)
